@@ -7,6 +7,12 @@ item alphabet) x start offsets 0..8 from a 16-aligned address inside a
 bytearray (drives ALIGNMENT_CHECK both ways for every fast path) x n in
 {0, 1, 3} x {pointer cdata, array cdata}.  Oracle: the element-wise read,
 including the exception type when an element cannot be converted.
+
+Audit-round families (module _c18x.py, large lengths in _large.py:c18): twenty
+further kinds of pointer / array cdata p, the forms of the length argument, the
+ffi of a compiled module (lazy structs, compiler-sized enums and typedefs, the
+C-level entry point), n = 0 on NULL and on items of unknown size, zero-sized
+items, long arrays with a non-convertible element first / last.
 """
 import ctypes
 import itertools
@@ -21,18 +27,30 @@ ID = "C18"
 LEVEL = "exploration"
 META = dict(
     engine="E1-enum", level="exploration",
-    technique="exhaustive enumeration of item types x byte contents x start alignments x lengths, ffi.unpack compared "
-              "with the element-wise read",
-    text="For about 50 item types (every primitive type incl. _Bool, long double, complex and the character types, "
-         "pointers, function pointers, structs, packed structs, unions, arrays, enums of four base types) memory "
-         "inside a bytearray is filled with every combination of the bytes 00 01 02 7F 80 FF for items up to 4 bytes, "
-         "with structured fillings (every background x every single-byte deviation) and IEEE/surrogate specials for "
-         "larger ones, and with every triple over a per-type item alphabet; ffi.unpack(p, n) for n in {0, 1, 3} is "
-         "compared with [p[i] for i in range(n)] at start offsets 0..8 from a 16-byte boundary, for p a pointer and "
-         "for p an array cdata: same values (same Python types, same cdata types and addresses, NaN and long double "
-         "compared bitwise) or the same exception type.",
-    note="both sides are cffi (the statement is a differential one); the start address is measured with ctypes; "
-         "items of unknown size (void, opaque structs) are excluded: no n > 0 lies within their memory")
+    technique="exhaustive enumeration of item types x byte contents x start alignments x lengths x kinds of cdata, "
+              "ffi.unpack compared with the element-wise read",
+    text="For 65 item types (80 in the thorough tier: every name of the primitive-type table incl. _Bool, long double, "
+         "complex, the character types and the least/fast/max aliases, pointers incl. pointers to arrays and to opaque "
+         "structs, function pointers, structs incl. packed, empty, bitfield, flexible-tail and long-double ones, unions, "
+         "arrays, enums of four base types) memory inside a bytearray is filled with every combination of the bytes "
+         "00 01 02 7F 80 FF for items up to 4 bytes, with structured fillings (every background x every single-byte "
+         "deviation) and IEEE/surrogate specials for larger ones, and with every triple over a per-type item alphabet; "
+         "ffi.unpack(p, n) for n in {0, 1, 3} is compared with [p[i] for i in range(n)] at start offsets 0..8 from a "
+         "16-byte boundary, for p a pointer and for p an array cdata: same values (same Python types, same cdata types "
+         "and addresses, NaN and long double compared bitwise) or the same exception type.  Further exhaustive families: "
+         "(forms) 20 more kinds of p -- ffi.new arrays of exact / larger / open length, ffi.new pointers, ffi.gc and "
+         "allocator objects, field arrays and flexible tails of normal and packed structs (owning and cast), slices, "
+         "longer and fixed-length from_buffer arrays, dereferenced pointers to arrays, element addresses -- for every "
+         "item type x all tuples over the item alphabet, aligned and misaligned; (nforms) the length as keyword, int "
+         "subclass, __index__ object, bool, and through _cffi_backend.unpack; (compiled) the ffi of a compiled module: "
+         "90 struct types each met for the first time (field list still lazy, measured) by unpack or by p[0], 1- and "
+         "2-byte enums and 'typedef int...' types sized by the C compiler, positional and keyword calls of the C-level "
+         "entry point; (boundary) n = 0 on NULL pointers and on void / opaque-struct pointers, zero-sized items; (large) "
+         "19 item types x lengths around 2**8, 2**10, 2**16 incl. a non-convertible element first / last.",
+    note="both sides are cffi (the statement is a differential one); the start address is measured with ctypes; for "
+         "items of unknown size (void, opaque structs) only n = 0 is inside the statement (n >= 1: no number of such "
+         "items lies 'within its memory'; the outcomes are recorded in the histogram only); n >= 1 at a NULL pointer is "
+         "never executed; quick tier about 25 s, thorough tier about 2-3 min (18 million evaluations) on the 16-core machine")
 
 ALPH = (0x00, 0x01, 0x02, 0x7F, 0x80, 0xFF)
 
@@ -46,6 +64,11 @@ enum E { EA, EB };
 enum F { FA = -1, FB };
 enum G { GA = 0x100000000 };
 enum H { HA = -1, HB = 0x100000000 };
+struct Opaque;
+struct Empty { };
+struct FX { int n; char tail[]; };
+struct BF { int a:3; int b:5; unsigned c:9; };
+struct LD { long double x; char c; };
 """
 CDEF_PACKED = "struct P5 { char c; int i; };"
 
@@ -67,8 +90,23 @@ TYPES = [
     ("int[2]", "array"), ("char[3]", "array"), ("struct S4[2]", "array"), ("double[1]", "array"),
     ("int[2][2]", "array"),
     ("enum E", "enum"), ("enum F", "enum"), ("enum G", "enum"), ("enum H", "enum"),
+    # audit round (gap 5): pointer items whose own item is an array / has unknown size, a qualified item, a
+    # struct of size 1 without fields, a struct whose size excludes its flexible tail, bitfields, long double member
+    ("int(*)[3]", "pointer"), ("struct Opaque *", "pointer"), ("const int", "sint"),
+    ("struct Empty", "struct"), ("struct FX", "struct"), ("struct BF", "struct"), ("struct LD", "struct"),
+    # ... and four of the remaining primitive names of the table in _cffi_backend.c (each has its own size/align entry)
+    ("intmax_t", "sint"), ("ptrdiff_t", "sint"), ("int_fast16_t", "sint"), ("uint_least8_t", "uint"),
 ]
-EXCLUDED = ["void", "struct Opaque"]      # items of unknown size
+NQUICK = len(TYPES)
+# the other fifteen names: thorough tier only
+TYPES += [(pre + "int_" + mid + w + "_t", "uint" if pre else "sint")
+          for mid in ("least", "fast") for w in ("8", "16", "32", "64") for pre in ("", "u")
+          if pre + "int_" + mid + w + "_t" not in ("int_fast16_t", "uint_least8_t")] + [("uintmax_t", "uint")]
+EXCLUDED = ["void", "struct Opaque"]      # items of unknown size: only n = 0 is inside the statement (see _c18x.py)
+
+
+def ntypes(quick):
+    return NQUICK if quick else len(TYPES)
 
 
 
@@ -87,16 +125,11 @@ class _St(object):
 _ST = None
 
 
-def state():
-    global _ST
-    if _ST is not None and _ST.pid == os.getpid():
-        return _ST
-    import cffi
+def mkstate(ffi, types):
+    """The fixed memory (one bytearray, pinned, its address known through ctypes) and the per-type facts for one
+    FFI object (the in-line one below, or the ffi of a compiled module in _c18x.py)."""
     st = _St()
     st.pid = os.getpid()
-    ffi = cffi.FFI()
-    ffi.cdef(CDEF)
-    ffi.cdef(CDEF_PACKED, packed=True)
     st.ffi = ffi
     st.ba = bytearray(512)
     st.pin = ctypes.c_char.from_buffer(st.ba)
@@ -108,10 +141,26 @@ def state():
     st.uintptr = ffi.typeof("uintptr_t")
     st.ldp = ffi.new("long double *")
     st.info = {}
-    for T, cls in TYPES:
-        st.info[T] = (ffi.sizeof(T), ffi.alignof(T), ffi.typeof(ffi.getctype(T, "*")), ffi.typeof(T).kind)
-    _ST = st
+    for ent in types:
+        T = ent[0]
+        if len(ent) == 4:
+            # size and alignment given by the caller (ffi.sizeof / alignof would force a lazy struct of a compiled module)
+            st.info[T] = (ent[2], ent[3], ffi.typeof(ffi.getctype(T, "*")), ffi.typeof(T).kind)
+        else:
+            st.info[T] = (ffi.sizeof(T), ffi.alignof(T), ffi.typeof(ffi.getctype(T, "*")), ffi.typeof(T).kind)
     return st
+
+
+def state():
+    global _ST
+    if _ST is not None and _ST.pid == os.getpid():
+        return _ST
+    import cffi
+    ffi = cffi.FFI()
+    ffi.cdef(CDEF)
+    ffi.cdef(CDEF_PACKED, packed=True)
+    _ST = mkstate(ffi, TYPES)
+    return _ST
 
 
 # ---------------------------------------------------------------------------- contents
@@ -256,9 +305,10 @@ def elementwise(st, p, n, ischar):
         return ("exc", type(e).__name__)
 
 
-def unpacked(st, p, n, ischar):
+def unpacked(st, p, n, ischar, call=None):
+    """call: optional thunk that performs the unpack() (other entry points / forms of the length argument)."""
     try:
-        r = st.ffi.unpack(p, n)
+        r = st.ffi.unpack(p, n) if call is None else call()
         if ischar:
             return ("val", canon(st, r))
         if type(r) is not list:
@@ -278,28 +328,12 @@ def out_of_range_char32(content, n):
     return any(x > 0x10FFFF for x in u)
 
 
-def one(st, T, cls, content, n, off, form):
-    """Returns (problem or None, aligned flag)."""
-    ffi = st.ffi
-    size, align, ptype, kind = st.info[T]
-    start = st.pad + off
-    nb = n * size
-    ba = st.ba
-    ba[start - 8:start] = b"\xee" * 8
-    ba[start:start + nb] = content[:nb]
-    ba[start + nb:start + nb + 16] = b"\xee" * 16
-    aligned = (st.addr + start) % align == 0
-    if form == "pointer":
-        p = ffi.cast(ptype, st.cbase + start)
-    else:
-        p = ffi.from_buffer(ffi.getctype(T, "[]"), st.mv[start:start + nb])
-        if len(p) != n:
-            raise InfraError("from_buffer gave length %d, wanted %d" % (len(p), n))
-    ischar = "b" if T == "char" else "u" if cls == "wchar" else ""
-    want = elementwise(st, p, n, ischar)
-    got = unpacked(st, p, n, ischar)
-    if got == want:
-        return None, aligned
+def ischar_of(T, cls):
+    return "b" if T == "char" else "u" if cls == "wchar" else ""
+
+
+def classify(st, cls, size, aligned, content, n, want, got, T):
+    """The structured signature of one mismatch (want = element-wise outcome, got = unpack outcome)."""
     sig = {"class": cls, "size": size, "aligned": aligned}
     if want[0] == "val" and got[0] == "val":
         sig["kind"] = "value_mismatch"
@@ -322,6 +356,40 @@ def one(st, T, cls, content, n, off, form):
     else:
         sig["kind"] = "different_exception_type"
         sig["exc"] = [want[1], got[1]]
+    return sig
+
+
+def one(st, T, cls, content, n, off, form, unpack_first=False):
+    """Returns (problem or None, aligned flag)."""
+    ffi = st.ffi
+    size, align, ptype, kind = st.info[T]
+    start = st.pad + off
+    nb = n * size
+    ba = st.ba
+    ba[start - 8:start] = b"\xee" * 8
+    ba[start:start + nb] = content[:nb]
+    ba[start + nb:start + nb + 16] = b"\xee" * 16
+    aligned = (st.addr + start) % align == 0
+    call = None
+    if form == "pointer":
+        p = ffi.cast(ptype, st.cbase + start)
+    elif form == "pointer_kw":
+        p = ffi.cast(ptype, st.cbase + start)
+        call = lambda: ffi.unpack(length=n, cdata=p)
+    else:
+        p = ffi.from_buffer(ffi.getctype(T, "[]"), st.mv[start:start + nb])
+        if len(p) != n:
+            raise InfraError("from_buffer gave length %d, wanted %d" % (len(p), n))
+    ischar = ischar_of(T, cls)
+    if unpack_first:
+        got = unpacked(st, p, n, ischar, call)
+        want = elementwise(st, p, n, ischar)
+    else:
+        want = elementwise(st, p, n, ischar)
+        got = unpacked(st, p, n, ischar, call)
+    if got == want:
+        return None, aligned
+    sig = classify(st, cls, size, aligned, content, n, want, got, T)
     return (sig, {"type": T, "content": content[:nb], "n": n, "offset": off, "form": form,
                   "unpack": got, "elementwise": want}), aligned
 
@@ -335,7 +403,32 @@ def contents_for(T, cls, size, n, quick):
     return [b"".join(t) for t in itertools.product(al, repeat=n)]
 
 
+class _Recorder(object):
+    """Stands in for ctx when _large.c18 runs in a pool worker (or in replay)."""
+
+    def __init__(self):
+        self.counts = {}
+        self.bad = {}
+
+    def count(self, key, n=1):
+        self.counts[key] = self.counts.get(key, 0) + n
+
+    def violation(self, sig, detail):
+        ent = self.bad.setdefault(json.dumps(sig, sort_keys=True), [sig, 0, []])
+        ent[1] += 1
+        if len(ent[2]) < 2:
+            ent[2].append(detail)
+
+
 def work(item):
+    if item[0] == "large":
+        from . import _large
+        rec = _Recorder()
+        n = _large.c18(rec)       # lengths on both sides of 2**8, 2**10, 2**16 (see _large.py)
+        return n, n, rec.counts, list(rec.bad.values()), 0
+    if isinstance(item[0], str):
+        from . import _c18x
+        return _c18x.work(item)
     ti, n, quick = item
     st = state()
     T, cls = TYPES[ti]
@@ -366,14 +459,16 @@ def work(item):
 
 
 def run(ctx):
-    from . import _large
-    _large.c18(ctx)           # lengths on both sides of 2**8, 2**12, 2**16 (see _large.py)
+    from . import _c18x
     st = state()
     items = []
-    for ti, (T, cls) in enumerate(TYPES):
+    for ti, (T, cls) in enumerate(TYPES[:ntypes(ctx.quick)]):
         for n in lengths(ctx.quick):
             items.append((ti, n, ctx.quick))
     items.sort(key=lambda it: (-it[1], -st.info[TYPES[it[0]][0]][0]))
+    xitems = _c18x.items(ctx.quick)       # audit-round families (see _c18x.py); the compiled module goes first
+    items = xitems[:1] + [("large",)] + items + xitems[1:]
+    famtot = {}
     tot = nontriv = ncont = 0
     allbad = {}
     for item, r in pool.pmap(work, [[it] for it in items]):
@@ -387,55 +482,83 @@ def run(ctx):
         ncont += nco
         for k, v in counts.items():
             ctx.count(k, v)
-        ctx.count("n=%d" % item[1], nc)
+        if isinstance(item[0], str):
+            famtot[item[0]] = famtot.get(item[0], 0) + nc
+            ctx.count("family/" + item[0], nc)
+            if item[0] == "forms":
+                T, cls = TYPES[item[1]]
+                ctx.sample({"family": "forms", "item_type": T, "kinds_of_cdata": list(_c18x.FORMS),
+                            "offsets_for_non_owning_kinds": list(_c18x.form_offsets(ctx.quick)),
+                            "n": list(lengths(ctx.quick)), "cases": nc})
+            elif item[0] != "large":
+                ctx.sample({"family": item[0], "cases": nc, "classes": sorted(counts)[:12]})
+        else:
+            ctx.count("n=%d" % item[1], nc)
         for sig, cnt, details in bad:
             ent = allbad.setdefault(json.dumps(sig, sort_keys=True), [sig, 0, []])
             ent[1] += cnt
             ent[2].extend(details)
-        if item[1] == 3:
+        if not isinstance(item[0], str) and item[1] == 3:
             T, cls = TYPES[item[0]]
             ctx.sample({"item_type": T, "n": 3, "item_alphabet": [b.hex() for b in item_alphabet(T, cls, st.info[T][0])],
                         "offsets": list(offsets(ctx.quick)), "forms": ["pointer", "array"]})
-    ctx.count("excluded_item_types_of_unknown_size", len(EXCLUDED))
+    ctx.count("item_types_of_unknown_size_only_n0_inside_statement", len(EXCLUDED))
     for key in sorted(allbad):
         sig, cnt, details = allbad[key]
-        details.sort(key=lambda d: (d["n"], len(d["content"]), d["content"], d["type"], d["offset"], d["form"]))
+        details.sort(key=lambda d: (d["n"], len(d.get("content", b"")), d.get("content", b""),
+                                    d.get("type") or d.get("T"), d["offset"], d.get("form", "")))
         for i in range(cnt):
             ctx.violation(sig, details[min(i, 2, len(details) - 1)])
+    nt = ntypes(ctx.quick)
     cov = {
         "evaluations": tot,
         "distinct_nontrivial": nontriv,
-        "item_types": len(TYPES),
+        "item_types": nt,
         "contents": ncont,
-        "rule": "%d item types x contents x start offsets 0..%d from a 16-byte boundary x n in %s x {pointer cdata, "
+        "evaluations_by_family": dict(famtot, main=tot - sum(famtot.values())),
+        "rule": "main: %d item types x contents x start offsets 0..%d from a 16-byte boundary x n in %s x {pointer cdata, "
                 "array cdata from ffi.from_buffer}; contents for n=1: all 6^size fillings over {00,01,02,7F,80,FF} for "
                 "size <= %d, else every background x single-byte deviation + top-two-bytes%s + IEEE / surrogate / "
-                "out-of-range specials; for n>1: all n-tuples over a per-type item alphabet of 6-9 items; non-trivial = "
-                "n > 0, counted as distinct (type, n, content, aligned-or-not) combinations" % (
-                    len(TYPES), offsets(ctx.quick)[-1], list(lengths(ctx.quick)), 4 if ctx.quick else 5,
-                    "" if ctx.quick else " + every pair of positions x pair of values on backgrounds 00/FF"),
+                "out-of-range specials; for n>1: all n-tuples over a per-type item alphabet of 6-9 items.  forms: the "
+                "same item types x n x %d kinds of cdata (%s) x start offsets %s for the non-owning kinds (the owning "
+                "ones: where the allocator puts them, alignment measured) x contents: the item alphabet and specials "
+                "for n=1, all n-tuples over the item alphabet for n=2,3, over its first four items for n=4.  nforms: "
+                "%s x item types %s x offsets x n.  compiled: one API-mode module; %d lazy struct cells (struct, packed "
+                "struct, union, nested struct, pointer-to-struct item) x {pointer, keyword call, array} x n in {0,1,3} "
+                "x {unpack first, p[i] first} and %d compiler-sized enum / typedef / partial-struct item types with "
+                "the main contents.  boundary: every item type + %s x {NULL, valid} x n=0; zero-sized items %s x n in "
+                "{1,3} x offsets.  large: see _large.py:c18.  non-trivial = n > 0, counted as distinct (family, type "
+                "or kind of cdata, n, content, aligned-or-not) combinations" % (
+                    nt, offsets(ctx.quick)[-1], list(lengths(ctx.quick)), 4 if ctx.quick else 5,
+                    "" if ctx.quick else " + every pair of positions x pair of values on backgrounds 00/FF",
+                    len(_c18x.FORMS), ", ".join(_c18x.FORMS), list(_c18x.form_offsets(ctx.quick)),
+                    "/".join(_c18x.NFORMS), ", ".join(_c18x.NFORM_TYPES), len(_c18x.lazy_cells(ctx.quick)),
+                    len(_c18x.COMPILED_SCALARS), ", ".join(EXCLUDED), ", ".join(_c18x.ZERO_SIZED)),
         "exhaustive": True,
-        "excluded": "item types of unknown size (%s): no element lies within their memory" % ", ".join(EXCLUDED),
+        "excluded": "n >= 1 on item types of unknown size (%s): no such n lies within their memory (outcomes recorded "
+                    "in the histogram under outside_statement/); n >= 1 at a NULL pointer (never executed)" % (
+                        ", ".join(EXCLUDED)),
     }
     return ctx.finish(cov, ["the element-wise read p[i] is the reference the statement names",
-                            "the alignment of the start address is measured with ctypes.addressof"])
+                            "the alignment of the start address is measured with ctypes.addressof (main family) or "
+                            "taken from the address of p (owning kinds of cdata)",
+                            "n = 0 is inside the statement for every pointer, NULL and unknown item size included "
+                            "(the statement says 'any n >= 0')"])
 
 
 def replay(detail):
     if detail.get("large"):
         from . import _large
-
-        class _C(object):
-            n = 0
-
-            def count(self, *a):
-                pass
-
-            def violation(self, sig, d):
-                _C.n += 1
-                print("VIOLATED", sig, d)
-        _large.c18(_C())
-        return 1 if _C.n else 0
+        rec = _Recorder()
+        _large.c18(rec, only=(detail["T"], detail["n"], detail["offset"], detail.get("bad_at")))
+        print("large family: item type %s, n=%d, byte offset %d, non-convertible element at %s: cases run %r" % (
+            detail["T"], detail["n"], detail["offset"], detail.get("bad_at"), rec.counts))
+        for sig, cnt, details in rec.bad.values():
+            print("VIOLATED", sig, details[0])
+        return 1 if rec.bad else 0
+    if detail.get("family"):
+        from . import _c18x
+        return _c18x.replay(detail)
     st = state()
     T = detail["type"]
     cls = dict(TYPES)[T]
